@@ -12,20 +12,20 @@ NOTE = ("Trusted: Kani's translation of MIR and CBMC's bit-precise semantics; de
 CLAIMED = {
  "C01": ("2.C01", "Totality (no panic, no overflow in a checked build, bounded loops via unwinding assertions) of the parsing units the property names, for every input within each harness's bound; not the composed decoder."),
  "C02": ("2.C02", "Kani pointer/validity checks over the real unsafe blocks of jxl-grid subgrids and the bitstream refill for all shapes within bounds, plus disjointness/cover of split and into_groups; SIMD kernels outside."),
+ "C03": ("2.C03", "Sample-arithmetic units of lossless Modular decoding (predictors and properties through the real incremental state, inverse RCT for all types and permutations, inverse squeeze, sample ops) decided against transcriptions of ISO/IEC 18181-1 Annex H: equality with the exact formulas and decode(encode(x)) == x for all values within bounds; not the composed image decoder."),
+ "C12": ("2.C12", "Narrow (i16) and wide (i32) scalar kernels (tendency, inverse squeeze h/v, RCT, sample ops) produce identical samples for all inputs under the semantic '16 bits suffice' precondition (12 bits + sign); SIMD drivers outside."),
+ "C04": ("2.C04", "Units of the entropy decoder against the format: hybrid-integer configuration parsing and value expansion as the exact inverse of the reference encoder for every configuration and every u32, field widths, ANS/prefix table units where tractable; not whole streams."),
  "C10": ("2.C10", "One-step functional equivalence of the real container state machine with a reference semantics written from the format rules, from every valid parser state (inductive: successor states are shown valid), for every buffer up to 20 bytes of any length: events, payload extents, consumed bytes, successor state, and rejection of every ill-formed layout."),
  "C11": ("2.C11", "For every buffer within bounds and every cut, reads on the prefix equal the reads on the full buffer or are classified as unexpected EOF."),
  "C13": ("2.C13", "Inductive step of the allocation accounting from an arbitrary tracker state, and exact charge/release of AlignedGrid allocations under every limit."),
  "C14": ("2.C14", "Round trip / differential against the spec's decoding procedure for U32, U64, F16, Enum, ZeroPadToByte and the header bundles, for every encoding within bounds, including exact bit counts."),
 }
 NA = {
- "C03": "not built yet (planned: predictors / RCT / squeeze / palette units vs spec, DESIGN 2.C03)",
- "C04": "not built yet (planned: hybrid integer, prefix code, ANS alias table units vs spec, DESIGN 2.C04)",
  "C05": "not built yet (planned: blend kernels and region arithmetic, DESIGN 2.C05)",
  "C06": "not built yet (planned: region padding geometry, DESIGN 2.C06)",
  "C07": "quantifier is thread schedules and pool sizes; Kani/CBMC do not model threads, rayon or relaxed atomics, and no sequential unit decides schedule independence (the disjoint-partition premise is checked under C02)",
  "C08": "not built yet (planned: render-handle typestate under injected failure, DESIGN 2.C08)",
  "C09": "not built yet (planned: one-step commutation of the container parser and Frame::feed_bytes, DESIGN 2.C09)",
- "C12": "not built yet (planned: i16 vs i32 sample kernels, DESIGN 2.C12)",
  "C15": "not built yet (planned: FrameBuffer orientation maps and sample conversion, DESIGN 2.C15)",
  "C16": "not built yet (planned: small DCTs bit-precise vs cosine sums, DESIGN 2.C16)",
  "C17": "not built yet (planned: JPEG bit writer / Huffman code units, DESIGN 2.C17)",
